@@ -73,12 +73,13 @@ Inductive astep : aview -> aview -> Prop :=
 Lemma astep_preserves : forall v v', WF v -> WF v' -> AInv v -> astep v v' -> AInv v'.
 Proof.
   intros v v' W W' I S.
-  destruct S; unfold AInv, WF in *; cbn [a_flag a_E a_nU a_nL a_lenU a_lenL a_p1U a_p1L a_p2 a_p3 a_dU a_dL a_cls] in *;
+  destruct S; unfold AInv, WF in *;
+    cbn [a_flag a_E a_nU a_nL a_lenU a_lenL a_p1U a_p1L a_p2 a_p3 a_dU a_dL a_cls] in *;
+    unfold KW, KB, KChkL, KChkU, KCas, KWr in *;
     try exact I.
   all: try (destruct E; [|]); try (destruct E'; [|]).
-  all: try (destruct k; [| | | | |]).
   all: try (destruct (lL =? 0) eqn:EL); try (destruct (lU =? 0) eqn:EU).
-  all: try solve [ intuition (try discriminate; try congruence; try lia) ].
+  all: try lia.
 Qed.
 
 (* ---- the concrete steps are abstract steps ---- *)
